@@ -1167,6 +1167,13 @@ func opAuth(pc *uint64, interpreter *EVMInterpreter, callContext *callCtx) ([]by
 		pushBool(callContext, ret)
 		return nil, nil
 	}
+	// AUTH has no memory-size function, so memory has not been expanded for it: a signature that does
+	// not lie inside memory is an invalid one (as it already is when offset is past the end)
+	if memLen := uint64(callContext.memory.Len()); !offset.IsUint64() || offset.Uint64() > memLen || memLen-offset.Uint64() < 128 {
+		callContext.authorized = nil
+		pushBool(callContext, ret)
+		return nil, nil
+	}
 
 	v := uint256.NewInt()
 	v.SetBytes(callContext.memory.GetPtr(int64(offset.Uint64()), 32))
